@@ -1011,6 +1011,7 @@ package gocql
 // collection framing: element count / element length as [int] (protocol >= 3) or [short] (protocol <= 2)
 //@ func writeCollectionSize
 //@   props C12 C02
+//@   inline
 //@   requires buf != nil
 //@   modifies buf.buf
 //@   ensures info.proto > 2 && n <= 1<<31-1 ==> result == nil && len(buf.buf) == old(len(buf.buf)) + 4 && be32(buf.buf, old(len(buf.buf))) == uint32(n)
@@ -1101,6 +1102,21 @@ package gocql
 //@   requires q != nil
 //@   count_calls Attempts
 //@   ensures Attempts_calls == 1 && result == (Attempts_ret0 <= s.NumRetries)
+
+// list/set framing (the element values themselves come from Marshal): after the element
+// count, every element is written as its length ([int] for protocol >= 3 with -1 for a
+// null element, [short] before) followed by its bytes. Per-iteration (`step`) obligations.
+//@ func marshalList
+//@   props C12 C02
+//@   count_calls Marshal
+//@   requires info != nil
+//@   assume typeis(info, CollectionType) ==> unbox(info, CollectionType).Elem != nil
+//@   loop 0: invariant buf != nil && 0 <= i
+//@   loop 1: invariant 0 <= i && len(keys) == len(rkeys)
+//@   loop 0: step listInfo.proto > 2 && Marshal_ret0 != nil ==> len(buf.buf) == prev(len(buf.buf)) + 4 + len(Marshal_ret0) && be32(buf.buf, prev(len(buf.buf))) == uint32(len(Marshal_ret0))
+//@   loop 0: step listInfo.proto > 2 && Marshal_ret0 == nil ==> len(buf.buf) == prev(len(buf.buf)) + 4 && be32(buf.buf, prev(len(buf.buf))) == 0xffffffff
+//@   loop 0: step listInfo.proto <= 2 ==> len(buf.buf) == prev(len(buf.buf)) + 2 + len(Marshal_ret0) && be16(buf.buf, prev(len(buf.buf))) == uint16(len(Marshal_ret0))
+//@   loop 0: step forall(k, 0 <= k && k < prev(len(buf.buf)), buf.buf[k] == prev(buf.buf[k]))
 
 // ---------------------------------------------------------------------------
 // uuid.go (RFC 4122; oracle in /verif/spec/bv.smt2 blocks uuid, hex)
